@@ -225,8 +225,10 @@ def arrow(F, rep):
                     ok_ = False
                     for c_ in built:
                         a_ = [peel(x) for x in c_["args"]]
+                        from flow import Flow as _Flow
+                        from_value = _Flow(pf, fn_body(pf)).derived(set(prm))
                         if len(a_) == 3 and len(binds) == 2 and a_[1].get("hid") == binds[0] and a_[2].get("hid") == binds[1] and \
-                                any(x.get("hid") in prm for x in nodes(a_[0], "Path")):
+                                any(x.get("hid") in from_value for x in nodes(a_[0], "Path")):
                             ok_ = True
                     rep.ob("ARROW", "parser|call-takes-the-value-first#%d" % n_arms, ok_ and not arm_.get("guard"),
                            "a call after `->` becomes ArrowCall(value, its callee, its arguments)" if ok_ and not arm_.get("guard") else
@@ -630,11 +632,10 @@ def paren_transparent(F, rep):
     rep.floor("PARENS", "shape tests on unresolved expressions", n, 2)
     # the parser itself: where it demands a particular form of a sub-expression it has just parsed (`t[<int literal>]`), the test
     # is made on the expression without its parentheses
-    PARSER_EXEMPT = {
-        "arrow_call::prepend_expresion": "the right-hand side of `->` is a call *form* that the arrow rewrites: `a -> (f(b))` groups "
-                                         "f(b) as a value first, the parentheses there are not redundant",
-        "[Expression as PrettyPrint]::pretty_print": "the printer's own dispatch over every kind",
-    }
+    # not form tests: a dispatch over (most of) the kinds - the printer -, and the function that rewrites the call after `->`
+    # (it builds AssignableKind::ArrowCall): the right-hand side of `->` is a call *form*, `a -> (f(b))` groups f(b) as a value
+    # first, so the parentheses there are not redundant
+    n_kinds = len(F.adt(EKP)["variants"])
     m_ = 0
     for fn in F.fns_in("sylt_parser::"):
         fname = last(fn["_path"], 2)
@@ -651,8 +652,12 @@ def paren_transparent(F, rep):
                 continue  # the stripping itself
             m_ += 1
             k += 1
-            if fname in PARSER_EXEMPT:
-                rep.ob("PARENS", "parser|%s|form-test#%d" % (fname, k), True, "exempt: " + PARSER_EXEMPT[fname], line_of(x))
+            if len({v for v in variants}) * 2 > n_kinds:
+                rep.ob("PARENS", "parser|%s|form-test#%d" % (fname, k), True, "a dispatch over the kinds of expression, not a demand for one form", line_of(x))
+                continue
+            if any((callee(c_) or "").endswith("AssignableKind::ArrowCall") for c_ in nodes(fn_body(fn), "Call")):
+                rep.ob("PARENS", "parser|%s|form-test#%d" % (fname, k), True,
+                       "the rewrite of the call after `->`: the arrow takes a call form, parentheses around it group it as a value", line_of(x))
                 continue
             # the tested expression had its parentheses taken off: a loop over the Parenthesis pattern assigns the tested local
             tested = {y["hid"] for y in nodes(x.get("scrut") or x.get("init") or {}, "Path") if y.get("res") == "Local"}
